@@ -16,6 +16,9 @@ static const char* kTmpl[] = {
   /*15*/ "3fb999999999999#", /*16*/ "c0##400000000000", /*17*/ "8000000000000###", /*18*/ "3ff##00000000000", /*19*/ "41dfffffffc000##",
   /*20*/ "36a0000000000000", /*21*/ "47efffffe0000000", /*22*/ "3f50624dd2f1a9f#", /*23*/ "4415af1d78b58c4#", /*24*/ "0###ffffffffffff", /*25*/ "7###000000000001",
   /*26*/ "3e7ad7f29abcaf4#", /*27*/ "3eb0c6f7a0b5ed8d", /*28*/ "4202a05f20000###", /*29*/ "3cb0000000000###", /*30*/ "5##fffffffffffff", /*31*/ "2##0000000000001",
+  /* 32..39: every power of two (fraction 0), all 2046 binary exponents and the subnormal minimum side */
+  "0##0000000000000", "1##0000000000000", "2##0000000000000", "3##0000000000000", "4##0000000000000", "5##0000000000000", "6##0000000000000", "7##0000000000000",
+  /* 40..41: negative powers of two, smallest subnormals */ "b##0000000000000", "00000000000000##",
 };
 
 extern "C" int h_ftoatext(void) {
